@@ -688,6 +688,10 @@ class Merge(MultiCrossBlock):
             alignment = normalize_alignment(who, alignment)
         for b in blocks:
             if b.alignment != alignment:
+                # A single-crossing block involves no alignment choice of its own
+                # (e.g., a CrossBlock), so it can be merged under any alignment
+                if b.alignment == AlignmentMode.EQUAL_PREAMBLE and len(b.crossings) <= 1:
+                    continue
                 raise ValueError(who, "Blocks have different alignments.")
         mode = normalize_mode(who, mode)
 
